@@ -338,6 +338,14 @@ def _lister(
     func: FuncDef, factor: 'Expr | None', strategy: SplitLoopStrategy
 ) -> '_SplitLoop':
     """The pass instance a listing walks `func` with."""
+    # `sites` / `refusals` are handed the strategy's own arguments, where the
+    # factor is an `int` or the name of a variable, not an expression
+    if isinstance(factor, bool):
+        raise TypeError(f"Expected an 'int' or 'str' for factor, got {factor}")
+    if isinstance(factor, int):
+        factor = Integer(factor, None)
+    elif isinstance(factor, str):
+        factor = Var(NamedId(factor), None)
     return _SplitLoop(
         func,
         Integer(1, None) if factor is None else factor,
